@@ -9,27 +9,21 @@
    handles (Read, Write, Truncate, Readdirnames, ... of mem.File) never take mu, only the mutex
    of their file or directory, so in the code they also run INSIDE a section of mu, between two
    file-mutex sections of a namespace method; the machine with the one-section table does not
-   show those interleavings.  [C04_today_linearizable] is therefore a statement about the
-   sections of mu (every history in which handle operations do not fall inside another call's
-   section of mu), not about every execution of the code.  On the search side these
-   interleavings are explored by the lock-aware mode of the cooperative scheduler (every lock
-   acquisition is a switching point; exhaustive under a preemption bound for fixed window
-   programs; REPORT-lin.md section 9).  It confirmed the three windows repaired earlier (the
-   split switches of Readdirnames and Rename) and found one that is OPEN in today's source:
-   OpenFile with O_APPEND|O_TRUNC seeks and truncates in two sections of the file's mutex inside
-   its one section of mu.  Against handle operations today's OpenFile is the machine with
-   [sc_open_finish] ON although the regenerated switch is off (the translator looks at mu only):
-   [C04_refuted_openfile_append_trunc_write] below replays the recorded history in that machine.
+   show those interleavings.  For the methods where such a window was found the translator reads
+   the finer shape as well: Readdirnames and Rename (their split switches), and OpenFile's
+   preparation of the handle: [lin_openfile_finish_one_hold] says whether the O_APPEND seek and
+   the O_TRUNC truncation share ONE hold of the file's mutex.  Before the repair they did not
+   (Seek, then Truncate), and a Write through another handle fell in between:
+   [C04_refuted_openfile_append_trunc_write_before_fix] replays that recorded history in the
+   machine with [sc_open_finish] on.  Today they do (mem.File.PrepareOpen), so against handle
+   operations OpenFile is one step: [C04_today_openfile_finish_one_hold],
+   [C04_today_linearizable_for_handles]; reverting the repair flips the constant and breaks
+   both.  For every OTHER namespace method, "no handle operation can observe a state between two
+   of its file-mutex sections" is not a theorem: it is covered on the search side by the
+   lock-aware mode of the cooperative scheduler (every lock acquisition is a switching point;
+   exhaustive under a preemption bound for fixed window programs; REPORT-lin.md sections 9-10).
    Which mutex protects which section against which handle operation stays outside the model.
-
-   Vocabulary (Model/Lin.v): a history is a list of calls with invocation/response stamps and
-   results; [linearizable step obs s0 hist fin] = some order of ALL calls respects real-time
-   precedence and, run one call at a time from s0 on the sequential specification, gives every
-   call its result and ends in the observed final tree.  The specification is [lin_step] =
-   [m_step] of Model/MemFs.v behind per-goroutine handle slots.  The concurrent machine runs
-   every call as a sequence of atomic SECTIONS (code between two lock operations); a schedule
-   is ANY list of thread numbers; thread and call counts are unbounded.  [ln_sec k] is the
-   section table of memmap.go; [ln_cfg_today] is read off today's source by `afcheck consts`. *)
+*)
 From Coq Require Import Sorting.Permutation.
 From AF Require Import Lib.Bytes Lib.Path Lib.Ops Gen.Consts Model.MemFile Model.MemFs Model.Lin
   Proofs.LinProof.
@@ -123,15 +117,18 @@ Theorem C04_refuted_openfile_trunc : forall k, sc_open_split k = false -> sc_ope
 Proof. exact refuted_openfile_trunc. Qed.
 Print Assumptions C04_refuted_openfile_trunc.
 
-(* The window that is OPEN in today's source (known finding, corpus/C04/openfile-append-trunc-write.case).
+(* The window of OpenFile BEFORE its repair (lin_openfile_finish_one_hold = 0: Seek and Truncate, two
+   holds of the file's mutex; corpus/C04/openfile-append-trunc-write.case, now a regression case).
    OpenFile(O_RDWR|O_APPEND|O_TRUNC) on /f = "abcd" ‖ Write of 8 bytes through another handle ‖ then a
    one-byte Write through the new handle.  In the machine whose OpenFile finishes its handle in
    separate sections (seek to the end; truncate) the other Write runs between the two: the new
-   handle's offset is 4, the final content 00 00 00 00 4e — the results recorded from the code by
+   handle's offset is 4, the final content 00 00 00 00 4e — the results recorded from that code by
    the lock-aware scheduler — and no order of the three calls explains them.  The interloper uses a
-   handle only (it does not take mu), which is why the code admits this run although the seek and
-   the truncate lie in one section of mu and [sc_open_finish ln_cfg_today = false]. *)
-Theorem C04_refuted_openfile_append_trunc_write : forall k, sc_open_split k = false -> sc_open_finish k = true ->
+   handle only (it does not take mu), which is why that code admitted this run although the seek
+   and the truncate lay in one section of mu and [sc_open_finish ln_cfg_today = false].  The
+   statement is about every table with the split shape; [ln_cfg_handles_today] has that shape iff
+   the regenerated switch is 0 (C04_today_openfile_for_handles below). *)
+Theorem C04_refuted_openfile_append_trunc_write_before_fix : forall k, sc_open_split k = false -> sc_open_finish k = true ->
   Forall (fun c : lop => op_handle_of (snd c) <> None) (nth 1 w10_progs []) /\
   (map (fun x => (lc_op x, lc_res x)) (lg_lin (ln_run k w10_s0 w10_progs w10_sched)) =
      [((None, HWrite 20 [87; 87; 87; 87; 87; 87; 87; 87]%N), RCount 8 None);
@@ -143,7 +140,7 @@ Proof.
   intros k H1 H2. split; [exact w10_writer_handles_only|].
   split; [now apply refuted_openfile_append_trunc_write_results|now apply refuted_openfile_append_trunc_write].
 Qed.
-Print Assumptions C04_refuted_openfile_append_trunc_write.
+Print Assumptions C04_refuted_openfile_append_trunc_write_before_fix.
 
 (* Rename and the listings through directory handles.  A handle lists its directory under the
    directory's mutex, not under mu, so it can run INSIDE Rename's write-locked section of mu,
@@ -285,10 +282,38 @@ Theorem C04_today_readdirnames_locked : sc_rdnames_split ln_cfg_today = false.
 Proof. reflexivity. Qed.
 Print Assumptions C04_today_readdirnames_locked.
 
+(* OpenFile prepares its handle under ONE hold of the file's mutex (mem.File.PrepareOpen): the table
+   as handle operations see it is the table of mu.  Reverting that repair makes the constant 0 and
+   breaks these three proofs; the first one then holds in its other branch. *)
+Theorem C04_today_openfile_for_handles :
+  if sc_open_split ln_cfg_handles_today || sc_open_finish ln_cfg_handles_today
+  then exists hist fin, produced_by_sections ln_cfg_handles_today (if sc_open_split ln_cfg_handles_today then lin_init else w10_s0) hist fin /\
+         ~ linearizable lin_step lin_obs (if sc_open_split ln_cfg_handles_today then lin_init else w10_s0) hist fin
+  else forall p flag perm, ln_lin_ok ln_cfg_handles_today (OpenFile p flag perm) = true.
+Proof.
+  destruct (sc_open_split ln_cfg_handles_today) eqn:E; cbn [orb].
+  - destruct (refuted_excl_create _ E) as (h & f & H1 & _ & H3). now exists h, f.
+  - destruct (sc_open_finish ln_cfg_handles_today) eqn:E2.
+    + destruct (refuted_openfile_append_trunc_write _ E E2) as (h & f & H1 & _ & H3). now exists h, f.
+    + intros. cbn [ln_lin_ok]. now rewrite E, E2.
+Qed.
+Print Assumptions C04_today_openfile_for_handles.
+
+Theorem C04_today_openfile_finish_one_hold :
+  lin_openfile_finish_one_hold = 1 /\ sc_open_finish ln_cfg_handles_today = false /\ ln_cfg_handles_today = ln_cfg_today.
+Proof. repeat split; reflexivity. Qed.
+Print Assumptions C04_today_openfile_finish_one_hold.
+
+Theorem C04_today_linearizable_for_handles : forall s0 progs sched hist,
+  Permutation hist (lg_lin (ln_run ln_cfg_handles_today s0 progs sched)) ->
+  linearizable lin_step lin_obs s0 hist (lin_obs (lg_st (ln_run ln_cfg_handles_today s0 progs sched))).
+Proof. intros s0 progs sched hist. apply sections_linearizable. intros p c _ _. destruct c as [slot o]. destruct o; reflexivity. Qed.
+Print Assumptions C04_today_linearizable_for_handles.
+
 (* hence EVERY history of the section machine of today's code — any goroutines, calls, schedule —
    is linearizable.  The sections are those of mu: handle operations that run inside another
-   call's section of mu are not behaviours of this machine (see the head of this file and
-   C04_refuted_openfile_append_trunc_write) *)
+   call's section of mu are not behaviours of this machine, except where the table says so
+   (Readdirnames, Rename, and OpenFile through ln_cfg_handles_today above; see the head of this file) *)
 (* Rename holds both parents across the move and re-keys the children of a directory under one
    hold of its mutex *)
 Theorem C04_today_rename_directories_held :
